@@ -182,6 +182,12 @@ class Flow:
                 if vt and not rest:
                     # every variant of the enum has its own edge: the `otherwise` edge (a wildcard arm kept for nested patterns) cannot be taken
                     out.append((("eq", ("const", "i32", 0), ("const", "i32", 1)), True))
+            # `match a.cmp(&b) { Less => .., Equal => .., Greater => .. }`: the arm is an ordering fact about a and b
+            if p[0] == "call" and re.search(r"cmp::(impls::)?(<impl .*Ord for \w+>|Ord)::cmp$", p[1]) and len(p[2]) == 2:
+                a_, b_ = strip_ref(p[2][0]), strip_ref(p[2][1])
+                for (f_, tr_) in list(out):
+                    if f_[0] == "variant" and f_[2] in ("Less", "Equal", "Greater"):
+                        out.append(({"Less": ("lt", a_, b_), "Equal": ("eq", a_, b_), "Greater": ("lt", b_, a_)}[f_[2]], tr_))
         else:
             if k < len(t.targets):
                 v = t.targets[k][0]
